@@ -868,7 +868,7 @@ type gtFn struct {
 	partial  bool
 	// implicit parameters
 	usesV       bool
-	valueParams map[string]bool // v_kind, v_undefined, v_null
+	valueParams map[string]bool // val_kind, val_undefined, val_null, val_of_*, val_as_*
 	preds       map[string]bool // uni_letter, uni_digit, uni_space
 	abstracts   []gtAbstract
 	text        string
@@ -884,10 +884,10 @@ func (fn *gtFn) addAbstract(a gtAbstract) {
 	fn.abstracts = append(fn.abstracts, a)
 }
 
-var valueParamOrder = []struct{ name, typ string }{{"v_kind", "V -> Z"}, {"v_undefined", "V"}, {"v_null", "V"},
-	{"v_of_bool", "bool -> V"}, {"v_of_int", "Z -> V"}, {"v_of_string", "bstr -> V"},
-	{"v_as_bool", "V -> option bool"}, {"v_as_int", "V -> option Z"}, {"v_as_string", "V -> option bstr"},
-	{"v_as_list", "V -> option (list V)"}, {"v_as_map", "V -> option (list (bstr * V))"}}
+var valueParamOrder = []struct{ name, typ string }{{"val_kind", "V -> Z"}, {"val_undefined", "V"}, {"val_null", "V"},
+	{"val_of_bool", "bool -> V"}, {"val_of_int", "Z -> V"}, {"val_of_string", "bstr -> V"},
+	{"val_as_bool", "V -> option bool"}, {"val_as_int", "V -> option Z"}, {"val_as_string", "V -> option bstr"},
+	{"val_as_list", "V -> option (list V)"}, {"val_as_map", "V -> option (list (bstr * V))"}}
 var predOrder = []string{"uni_letter", "uni_digit", "uni_space"}
 
 func (fn *gtFn) implicitBinders() []string {
@@ -1030,7 +1030,7 @@ func (st *gtState) translateFn(g *gen, dir, key string, fn *gtFn) {
 		cfg = &gtCfg{}
 	}
 	f := p.funcIn[key]
-	tr := &gtTr{g: g, st: st, p: p, f: f, fn: fn, names: map[string]int{}, abstract: map[string]bool{}, usedFields: map[string]map[string]bool{}, usedVars: map[string]bool{}}
+	tr := &gtTr{g: g, st: st, p: p, f: f, fn: fn, names: map[string]int{}, abstract: map[string]bool{}, usedFields: map[string]map[string]bool{}, usedVars: map[string]bool{}, fieldNames: map[string]bool{}}
 	for _, a := range cfg.abstract {
 		tr.abstract[a] = true
 	}
@@ -1332,7 +1332,7 @@ func (st *gtState) mapTable(g *gen, p *gpkg, name string, user *gtFn) (string, *
 	if assignedElsewhere(p, name) {
 		gtFail("package variable %s is assigned to somewhere in the package", name)
 	}
-	tr := &gtTr{g: g, st: st, p: p, f: f, fn: &gtFn{valueParams: map[string]bool{}, preds: map[string]bool{}}, names: map[string]int{}, abstract: map[string]bool{}, usedFields: map[string]map[string]bool{}, usedVars: map[string]bool{}}
+	tr := &gtTr{g: g, st: st, p: p, f: f, fn: &gtFn{valueParams: map[string]bool{}, preds: map[string]bool{}}, names: map[string]int{}, abstract: map[string]bool{}, usedFields: map[string]map[string]bool{}, usedVars: map[string]bool{}, fieldNames: map[string]bool{}}
 	env := (&venv{}).push()
 	var rows []string
 	seen := map[string]bool{}
